@@ -100,9 +100,7 @@ func (i *Int) Init64(v int64, m *compatiblemod.Mod) *Int {
 	i.M = m
 	i.BO = kyber.BigEndian
 	if v < 0 {
-		i.V = *compatible.FromNat(i.M.Nat())
-		negated := compatible.NewInt(-v)
-		i.V = *compatible.NewInt(0).Sub(&i.V, negated, i.M)
+		i.SetInt64(v)
 	} else {
 		i.V = *compatible.NewInt(0).SetUint(uint(v))
 		i.V = *compatible.NewInt(0).Mod(&i.V, m)
@@ -190,7 +188,10 @@ func (i *Int) One() kyber.Scalar {
 // The modulus must already be initialized.
 func (i *Int) SetInt64(v int64) kyber.Scalar {
 	if v < 0 {
-		panic("negative value")
+		// -|v| mod M; |v| is taken as a uint64 so that math.MinInt64 works too
+		mag := compatible.NewInt(0).Mod(compatible.NewUint(uint64(-(v+1))+1), i.M)
+		i.V = *compatible.NewInt(0).Sub(compatible.NewInt(0).Mod(compatible.NewInt(0), i.M), mag, i.M)
+		return i
 	}
 	i.V = *compatible.NewInt(0).Mod(compatible.NewInt(v), i.M)
 
